@@ -127,6 +127,8 @@ Definition l1_agree (c : case) : bool :=
 Definition verdict (c : case) : Z :=
   let agree := outcome_eqb (transact (c_tx c) (c_f c) (c_s0 c)) (c_obs c) && l1_agree c in
   if spec_ok c then (if agree then 0 else 1)
+  (* known classes only while the implementation behaves as the model records *)
+  else if negb agree then 2
   else if class10 c then 10 else if class11 c then 11 else 2.
 
 Definition failures (l : list case) := Common.failures verdict l.
